@@ -91,9 +91,22 @@ def cases(ctx):
             out.append(dict(op='rdiv', a=t, k=v, kty=ty))
             out.append(dict(op='divnum', a=t, k=v, kty=ty))
     # associativity etc. need no own events: every product is judged against the group operation
+    # the same operations on operands that were normalized / hashed / compared before
+    warm = []
+    for c in out:
+        if c['op'] in ('mul', 'div', 'pow', 'mulnum', 'rdiv', 'divnum', 'eq', 'norm') and rnd.random() < (0.5 if quick else 0.8):
+            w = dict(c)
+            w['warm'] = rnd.choice([1, 2])
+            warm.append(w)
+    out += warm
     for j, c in enumerate(out):
         c['id'] = 'c07:%d' % j
     return out
+
+
+def eq_cases(ctx):
+    """Only the equality / hash cases (used by C19)."""
+    return [c for c in cases(ctx) if c['op'] == 'eq']
 
 
 def _stage(cs):
